@@ -332,7 +332,7 @@ pub fn name_cases(tier: Tier) -> Vec<Case> {
             v.push(Case::FieldCase { ident: id.into(), case: c.into() });
         }
     }
-    for n in event_names(if tier == Tier::Quick { 2 } else { 3 }) {
+    for n in event_names(if tier == Tier::Quick { 3 } else { 4 }) {
         v.push(Case::EventName { name: n });
     }
     let msgs = ["ok", "é", "漢字", "😀", "say \"hi\"", "back\\slash", "a)b", "a,b", "x = 1", "email", "line\nbreak", "tab\there", "${x}", "`tick`", "it's", "</script>", "\u{2028}sep"];
@@ -360,11 +360,11 @@ pub fn run(tier: Tier) -> CheckResult {
     // types: in zod mode the field and param sites carry schemas - they must parse too
     let types: Vec<RTy> = match tier {
         Tier::Quick => {
-            let mut t = gen::enumerate_full(&[c05::leaf("String"), c05::leaf("()"), c05::leaf("Item")], 2);
+            let mut t = c05::enumerate(Tier::Quick);
             t.extend(gen::enumerate_full(&[c05::leaf("u8"), c05::leaf("bool"), c05::leaf("Kind"), c05::leaf("f64")], 1));
             t
         }
-        Tier::Thorough => c05::enumerate(Tier::Quick),
+        Tier::Thorough => c05::enumerate(Tier::Thorough),
     };
     let mut types = types;
     types.extend(gen::enumerate_spines(&[RTy::named("models::Item"), RTy::named("crate::dto::Kind"), RTy::named("self::Item")], &[c05::leaf("i32"), c05::leaf("Item")], 2));
